@@ -6,6 +6,8 @@ var propBuilders = map[string]func(c *CheckCtx){}
 
 func init() {
 	propBuilders["C18"] = buildC18
+	propBuilders["C09"] = buildC09
+	registerHarness("C09", "pkg/parser", "c09_parser_test.go", "TestVCReplayC09")
 	registerHarness("C18", "pkg/token", "c18_token_test.go", "TestVCReplayC18")
 	registerHarness("C18", "pkg/position", "c18_position_test.go", "TestVCReplayC18")
 }
@@ -16,4 +18,32 @@ func buildC18(c *CheckCtx) {
 		return hasProp(con, "C18") && (con.Pkg == modPath+"/pkg/token" || con.Pkg == modPath+"/pkg/position")
 	})
 	c.assume("distinct cells do not interfere (Go memory model); pool objects stay reachable while referenced (GC)")
+}
+
+func (c *CheckCtx) addInit(pkgs ...string) {
+	for _, p := range pkgs {
+		sp := c.W.SSAPkgs[modPath+"/"+p]
+		if sp == nil {
+			continue
+		}
+		if fn := sp.Func("init"); fn != nil {
+			c.Reports = append(c.Reports, verifyFunction(c.W, fn, nil, []string{c.Prop}))
+		}
+	}
+}
+
+func (c *CheckCtx) addLemmas(pkgs ...string) {
+	for _, p := range pkgs {
+		if cf := c.W.CFiles[modPath+"/"+p]; cf != nil && len(cf.Lemmas) > 0 {
+			c.Reports = append(c.Reports, verifyLemmas(c.W, modPath+"/"+p, []string{c.Prop}))
+		}
+	}
+}
+
+func buildC09(c *CheckCtx) {
+	c.Technique = "deductive: WP over go/ssa of pkg/version, pkg/parser.Parse and the version-reading scanner helpers against contracts; class lemmas as pure SMT goals; read-site frame"
+	c.addFunctionUnits(func(con *Contract) bool { return hasProp(con, "C09") })
+	c.addInit("pkg/version", "pkg/parser")
+	c.addLemmas("pkg/version")
+	c.assume("strings.SplitN / strconv.ParseUint: assumed stdlib contracts (pure, fresh results); the numeric value of a version string is not re-derived")
 }
